@@ -315,5 +315,108 @@ fn blob_tree_open_first_id(index: &Tree) -> (r: u64)
 }
 //@ WRAPPER_END
 
+// ---------------- C09.4 / C17.2: Version::with_merge, value-log and statistics statements ----------------
+/// stands for HashSet<BlobFileId>
+#[verifier::external_body]
+struct IdSet { v: Vec<u64> }
+impl IdSet {
+    uninterp spec fn view(&self) -> Set<u64>;
+    #[verifier::external_body]
+    fn is_empty(&self) -> (r: bool) ensures r == (self.view() =~= Set::<u64>::empty()) { unimplemented!() }
+    /// iteration order is unspecified: the yielded ids are exactly the members
+    #[verifier::external_body]
+    fn iter(&self) -> (r: SeqIter<&u64>)
+        ensures forall|id: u64| #[trigger] self.view().contains(id) ==> exists|i: int| 0 <= i < r.rest().len() && *r.rest()[i] == id,
+            forall|i: int| 0 <= i < r.rest().len() ==> self.view().contains(*(#[trigger] r.rest()[i])),
+    { unimplemented!() }
+}
+impl BlobFileList {
+    #[verifier::external_body]
+    fn insert(&mut self, key: u64, value: BlobFile) ensures final(self).view() == old(self).view().insert(key, value) { }
+    #[verifier::external_body]
+    fn remove(&mut self, key: u64) -> (r: Option<BlobFile>) ensures final(self).view() == old(self).view().remove(key) { unimplemented!() }
+}
+/// pointwise sum of two statistics maps (FragmentationMap::merge_into; its own obligation is C09.2)
+spec fn merged(a: Map<u64, FragmentationEntry>, d: Map<u64, FragmentationEntry>) -> Map<u64, FragmentationEntry> {
+    Map::new(a.dom().union(d.dom()), |k: u64|
+        if a.contains_key(k) && d.contains_key(k) { FragmentationEntry { len: (a[k].len + d[k].len) as usize, bytes: (a[k].bytes + d[k].bytes) as u64, on_disk_bytes: (a[k].on_disk_bytes + d[k].on_disk_bytes) as u64 } }
+        else if a.contains_key(k) { a[k] } else { d[k] })
+}
+impl FragmentationMap {
+    #[verifier::external_body]
+    fn merge_into(self, other: &mut FragmentationMap) ensures final(other).view() == merged(old(other).view(), self.view()) { }
+}
+
+//@ WRAPPER_BEGIN
+impl Version {
+    /// wrapper (generated) around the statements `let has_diff ..; let value_log = ..; let gc_stats = ..;` of Version::with_merge
+    fn with_merge_gc_part(&self, diff: Option<FragmentationMap>, new_blob_files: Vec<BlobFile>, blob_files_to_drop: &IdSet) -> (r: (Arc<FragmentationMap>, Arc<BlobFileList>))
+        ensures
+            // every blob file written by this compaction joins the version (whether or not any statistics changed) ...
+            forall|i: int| 0 <= i < new_blob_files@.len() && !blob_files_to_drop.view().contains((#[trigger] new_blob_files@[i]).0.id) ==> r.1.view().contains_key(new_blob_files@[i].0.id),   // @OBL C17.2, C08.5
+            // ... the rewritten / dead ones leave, every other blob file stays
+            forall|id: u64| #[trigger] blob_files_to_drop.view().contains(id) ==> !r.1.view().contains_key(id),   // @OBL C09.4
+            forall|id: u64| #[trigger] self.blob_files.view().contains_key(id) && !blob_files_to_drop.view().contains(id) ==> r.1.view().contains_key(id),   // @OBL C09.4
+            forall|id: u64| #[trigger] r.1.view().contains_key(id) ==> self.blob_files.view().contains_key(id) || exists|i: int| 0 <= i < new_blob_files@.len() && new_blob_files@[i].0.id == id,   // @OBL C09.4
+            // statistics: old + diff for every blob file of the resulting version
+            forall|id: u64| #[trigger] r.1.view().contains_key(id) && merged(self.gc_stats.view(), match diff { Some(d) => d.view(), None => Map::empty() }).contains_key(id)
+                ==> r.0.view().contains_key(id) && r.0.view()[id] == merged(self.gc_stats.view(), match diff { Some(d) => d.view(), None => Map::empty() })[id],   // @OBL C09.4
+    {
+//@ FROM src/version/mod.rs :: impl Version :: fn with_merge :: STMTS `>for ( level_idx , level ) in` .. `let gc_stats =` :: OBL C09.4, C17.2, C08.5
+//@ SUBST `for & id in blob_files_to_drop` ==> `for id in blob_files_to_drop.iter()`
+//@ SUBST `copy . remove ( id ) ;` ==> `copy.remove(*id);`
+        let has_diff = diff.is_some();
+
+        let value_log = if has_diff || !new_blob_files.is_empty() || !blob_files_to_drop.is_empty()
+        {
+            let mut copy = self.blob_files.deref().clone();
+            /*+*/let ghost v0 = self.blob_files.view();/*-*/
+
+            for blob_file in /*+*/it: /*-*/new_blob_files
+                /*+*/invariant
+                    it.seq() == new_blob_files@,
+                    forall|id: u64| #[trigger] v0.contains_key(id) ==> copy.view().contains_key(id),
+                    forall|i: int| 0 <= i < it.index@ ==> copy.view().contains_key((#[trigger] new_blob_files@[i]).0.id),
+                    forall|id: u64| #[trigger] copy.view().contains_key(id) ==> v0.contains_key(id) || exists|i: int| 0 <= i < it.index@ && new_blob_files@[i].0.id == id,/*-*/
+            {
+                copy.insert(blob_file.id(), blob_file);
+            }
+            /*+*/let ghost v1 = copy.view();/*-*/
+
+            for id in /*+*/it2: /*-*/blob_files_to_drop.iter()
+                /*+*/invariant
+                    forall|i: int| 0 <= i < it2.seq().len() ==> blob_files_to_drop.view().contains(*(#[trigger] it2.seq()[i])),
+                    forall|id: u64| #[trigger] blob_files_to_drop.view().contains(id) ==> exists|i: int| 0 <= i < it2.seq().len() && *it2.seq()[i] == id,
+                    forall|i: int| 0 <= i < it2.index@ ==> !copy.view().contains_key(*(#[trigger] it2.seq()[i])),
+                    forall|id: u64| #[trigger] copy.view().contains_key(id) ==> v1.contains_key(id),
+                    forall|id: u64| #[trigger] v1.contains_key(id) && !blob_files_to_drop.view().contains(id) ==> copy.view().contains_key(id),/*-*/
+            {
+                copy.remove(*id);
+            }
+
+            Arc::new(copy)
+        } else {
+            self.blob_files.clone()
+        };
+
+        let gc_stats = if has_diff || !blob_files_to_drop.is_empty() {
+            let mut copy = self.gc_stats.deref().clone();
+
+            if let Some(diff) = diff {
+                diff.merge_into(&mut copy);
+            }
+
+            copy.prune(&value_log);
+
+            Arc::new(copy)
+        } else {
+            self.gc_stats.clone()
+        };
+//@ END
+        (gc_stats, value_log)
+    }
+}
+//@ WRAPPER_END
+
 } // verus!
 fn main() {}
